@@ -360,6 +360,73 @@ var ruleA2 = &Rule{
 					}
 				}
 				pushedFields[field] = true
+				// the pushed part may be selected by accessor functions (a table of `func(resp) part` rows walked by a loop):
+				// every field of the response that a possible callee hands back counts as pushed
+				if len(push.Common().Args) > 0 {
+					v := push.Common().Args[0]
+					for {
+						if mi, ok := v.(*ssa.MakeInterface); ok {
+							v = mi.X
+						} else if ci, ok := v.(*ssa.ChangeInterface); ok {
+							v = ci.X
+						} else {
+							break
+						}
+					}
+					if sel, ok := v.(*ssa.Call); ok {
+						var callees []*ssa.Function
+						if sc := sel.Common().StaticCallee(); sc != nil {
+							callees = append(callees, sc)
+						} else if !sel.Common().IsInvoke() {
+							for _, e := range c.CG().vtaOut[push.Parent()] {
+								if e.Site == ssa.CallInstruction(sel) && !e.Fallback {
+									callees = append(callees, e.Callee)
+								}
+							}
+						}
+						var got []string
+						for _, cal := range callees {
+							if len(cal.Blocks) == 0 || !isModuleFn(cal) {
+								continue
+							}
+							for _, r := range returnsOf(cal) {
+								if len(r.Results) != 1 {
+									continue
+								}
+								rv := r.Results[0]
+								for {
+									if mi, ok := rv.(*ssa.MakeInterface); ok {
+										rv = mi.X
+									} else if ci, ok := rv.(*ssa.ChangeInterface); ok {
+										rv = ci.X
+									} else {
+										break
+									}
+								}
+								var base ssa.Value
+								var k string
+								switch x := rv.(type) {
+								case *ssa.UnOp:
+									if fa, ok := x.X.(*ssa.FieldAddr); ok {
+										base, k = fa.X, fieldKey(fa.X.Type(), fa.Field)
+									}
+								case *ssa.Field:
+									base, k = x.X, fieldKey(x.X.Type(), x.Field)
+								}
+								if _, isParam := base.(*ssa.Parameter); isParam && k != "" {
+									got = append(got, k[strings.LastIndex(k, ".")+1:])
+								}
+							}
+						}
+						sort.Strings(got)
+						for _, f := range got {
+							pushedFields[f] = true
+						}
+						if len(got) > 0 {
+							field = "one of " + strings.Join(got, "/")
+						}
+					}
+				}
 				// the call result is an element packed for an append
 				collected := false
 				if refs := push.Referrers(); refs != nil {
